@@ -193,3 +193,66 @@ pub proof fn lemma_uint_mul_word(a: Uint, b: u64)
     axiom_buint_mul(a, a);
 }
 } // verus!
+
+verus! {
+// ---------------------------------------------------------------- chain interpreters over the abstract group (C15, layer 2)
+
+#[verifier::external_type_specification]
+#[verifier::external_body]
+pub struct ExCurve(Curve);
+#[verifier::external_type_specification]
+#[verifier::external_body]
+pub struct ExPoint(Point);
+#[verifier::external_type_specification]
+#[verifier::external_body]
+pub struct ExExtPoint(ExtPoint);
+
+/// the group element a projective / extended point stands for on curve c
+pub uninterp spec fn pelem(c: &Curve, p: &Point) -> G;
+pub uninterp spec fn eelem(c: &Curve, p: &ExtPoint) -> G;
+
+// Assumed contracts of the point operations (each formula is a polynomial identity discharged by the algebra back
+// end: the result is on the curve and equals the classical sum projectively; that this sum is the group law is T-math).
+pub assume_specification [Curve::to_extended] (c: &Curve, p: &Point) -> (r: ExtPoint)
+    ensures eelem(c, &r) == pelem(c, p);
+pub assume_specification [ExtPoint::to_proj] (e: &ExtPoint) -> (r: Point)
+    ensures forall|c: &Curve| pelem(c, &r) == eelem(c, e);
+pub assume_specification [Curve::dblext] (c: &Curve, p: &Point) -> (r: ExtPoint)
+    ensures eelem(c, &r) == gadd(pelem(c, p), pelem(c, p));
+pub assume_specification [Curve::double] (c: &Curve, p: &Point) -> (r: Point)
+    ensures pelem(c, &r) == gadd(pelem(c, p), pelem(c, p));
+pub assume_specification [Curve::addext] (c: &Curve, p: &ExtPoint, q: &ExtPoint) -> (r: ExtPoint)
+    ensures eelem(c, &r) == gadd(eelem(c, p), eelem(c, q));
+pub assume_specification [Curve::addextproj] (c: &Curve, p: &ExtPoint, q: &ExtPoint) -> (r: Point)
+    ensures pelem(c, &r) == gadd(eelem(c, p), eelem(c, q));
+pub assume_specification [Curve::subextproj] (c: &Curve, p: &ExtPoint, q: &ExtPoint) -> (r: Point)
+    ensures pelem(c, &r) == gadd(eelem(c, p), gneg(eelem(c, q)));
+
+/// R4 outlining of `Point(zn.zero(), zn.one(), zn.one())` (the neutral point (0 : 1 : 1)); trusted contract
+#[verifier::external_body]
+fn ol_neutral(c: &Curve) -> (r: Point)
+    ensures pelem(c, &r) == gid()
+{
+    let zn = &c.zn;
+    Point(zn.zero(), zn.one(), zn.one())
+}
+} // verus!
+
+verus! {
+pub assume_specification [Curve::add] (c: &Curve, p: &Point, q: &Point) -> (r: Point)
+    ensures pelem(c, &r) == gadd(pelem(c, p), pelem(c, q));
+pub assume_specification [<Point as core::clone::Clone>::clone] (p: &Point) -> (r: Point)
+    ensures forall|c: &Curve| pelem(c, &r) == pelem(c, p);
+
+/// ASSUMED (not proved: the streaming multiword chain builder is not under contract): `make_addition_chain_long`
+/// encodes n > 0 as a chain of at most 384 opcodes, doublings 2y with y <= 60, odd gaps up to 63, ending with a
+/// positive odd gap. `scalar1024_chainmul` is verified against this contract only.
+pub assume_specification [Curve::make_addition_chain_long] (chain: &mut [i8; 384], n: &U1024) -> (r: usize)
+    requires uv(*n) > 0
+    ensures
+        1 <= r <= 384,
+        chain_value(final(chain)@, r as int) == uv(*n) as int,
+        final(chain)@[r - 1] % 2 == 1 && 1 <= final(chain)@[r - 1] <= 63,
+        forall|i: int| 0 <= i < r - 1 ==> (#[trigger] final(chain)@[i] % 2 == 0 ==> 2 <= final(chain)@[i] <= 120)
+            && (final(chain)@[i] % 2 != 0 ==> -63 <= final(chain)@[i] <= 63);
+} // verus!
